@@ -34,7 +34,8 @@ def outcome_st(draw, depth=0):
     if k == 'iterobj':
         return dict(draw(items_st()), k='iterobj', has_close=draw(st.booleans()), raise_at=draw(st.sampled_from([None, None, None, 0])))
     if k == 'file':
-        return {'k': 'file', 'data': draw(st.sampled_from(['', 'file content', 'z' * 100])), 'has_close': draw(st.booleans()), 'has_iter': draw(st.booleans())}
+        return {'k': 'file', 'data': draw(st.sampled_from(['', 'file content', 'z' * 100])), 'has_close': draw(st.booleans()), 'has_iter': draw(st.booleans()),
+                'seekable': draw(st.booleans()), 'pos': draw(st.sampled_from([0, 0, 1, 5, 12, 100]))}
     body = draw(outcome_st(depth + 1).filter(lambda o: o['k'] != 'exc'))
     return {'k': 'resp', 'cls': draw(st.sampled_from(['HTTPResponse', 'HTTPResponse', 'HTTPError'])), 'status': draw(st.sampled_from([None] + STATUSES)),
             'body': body, 'how': draw(st.sampled_from(['return', 'raise', 'yield'])),
@@ -113,6 +114,28 @@ class FileNoCloseIter(_FileBase):
         return iter(lambda: self.read(7), b'')
 
 
+class SeekFile(io.BytesIO):
+    """A real binary stream (seek / tell / fileno-less), possibly already read from when the handler returns it."""
+
+    def __init__(self, tr, spec):
+        super().__init__(spec['data'].encode('utf8'))
+        self.closes = 0
+        self.produced = False
+        self.is_file = True
+        tr.objs.append(self)
+        self.seek(min(spec.get('pos', 0), len(spec['data'].encode('utf8'))))
+
+    def read(self, n=-1):
+        d = super().read(n)
+        if d:
+            self.produced = True
+        return d
+
+    def close(self):
+        self.closes += 1
+        super().close()
+
+
 class ServerFileWrapper:
     """What a server passes as wsgi.file_wrapper: iterates blocks, closes the file on close()."""
 
@@ -155,6 +178,8 @@ def build(spec, tr, shared_store, reqno):
         return 'return', g()
     if k == 'iterobj':
         return 'return', (ClosableIter if spec['has_close'] else PlainIter)(tr, spec)
+    if k == 'file' and spec.get('seekable'):
+        return 'return', SeekFile(tr, spec)
     if k == 'file':
         cls = {(True, True): FileCloseIter, (True, False): FileClose, (False, True): FileNoCloseIter, (False, False): FileNoClose}[(spec['has_close'], spec['has_iter'])]
         return 'return', cls(tr, spec)
